@@ -108,8 +108,13 @@ end HashInfo
 
 def maxDepth : Nat := 1024
 
-/-- Go buffer of a parsed cell: exactly ⌈len/8⌉ data bytes, completion tag cleared -/
-def parsedBuf (bits : List Bool) : List UInt8 := Bits.bitsToBytes bits
+/-- Go buffer of a cell (`bits.buf`): a parsed cell, a cell made by `NewCell`/`NewCellExotic` and the hook
+`VerifNewCell` all carry a buffer for the full capacity of 1023 bits = 128 bytes: the data bytes (completion tag
+cleared) followed by zero bytes. -/
+def bufBytes : Nat := 128
+def parsedBuf (bits : List Bool) : List UInt8 :=
+  let b := Bits.bitsToBytes bits
+  b ++ List.replicate (bufBytes - b.length) 0
 
 /-- one iteration of the per-level loop of newImmutableCell for level `i`; `acc` = (hashIndex so far as count of
 significant levels seen, hashes, depths) -/
